@@ -198,6 +198,14 @@ func init() {
 			rdepth = 5
 		}
 		engine.RunSeq(r, engine.SeqSpec{Name: "c06-refs", WorkerArgs: []string{"worker", "store"}, Alphabet: vOpsJSON(refs), Params: params, Depth: rdepth, Budget: budget})
+		// the same client on a smaller alphabet, one level deeper (write, start, write, continue is already four operations)
+		var cq []VOp
+		for _, c := range poolIdx("r23", "r2", "dr2", "e") {
+			cq = append(cq, VOp{K: "batch", DS: "A", Ents: []VEnt{{"e1", c}}})
+		}
+		cq = append(cq, VOp{K: "batch", DS: "A", Ents: []VEnt{{"e3", poolIdx("r2")[0]}}}, VOp{K: "batch", DS: "A", Ents: []VEnt{{"e3", poolIdx("e")[0]}}})
+		cq = append(cq, VOp{K: "qstart"}, VOp{K: "qstart", LO: true}, VOp{K: "qcont"})
+		engine.RunSeq(r, engine.SeqSpec{Name: "c06-continued-query", WorkerArgs: []string{"worker", "store"}, Alphabet: vOpsJSON(cq), Params: params, Depth: rdepth + 2, Budget: budget})
 	})
 }
 
